@@ -44,6 +44,8 @@ type Term struct {
 	U     uint64 // BV value (masked to width) or bool 0/1
 	Str   string // string constant
 	I     string // optional Int-sorted text equal to the signed value of this BV
+	Head  *Term  // for str.++ terms: constant first part
+	Tail  *Term  // for str.++ terms: the rest after Head
 }
 
 func mask(w int) uint64 {
@@ -444,6 +446,9 @@ func StrLen(s *Term) *Term {
 	if s.Const {
 		return BV(64, uint64(len(s.Str)))
 	}
+	if s.Head != nil {
+		return Arith("+", BV(64, uint64(len(s.Head.Str))), StrLen(s.Tail), true)
+	}
 	return fromInt(64, "(str.len "+s.S+")")
 }
 
@@ -457,7 +462,13 @@ func StrConcat(a, b *Term) *Term {
 	if b.Const && b.Str == "" {
 		return a
 	}
-	return &Term{S: "(str.++ " + a.S + " " + b.S + ")", Sort: SStr}
+	t := &Term{S: "(str.++ " + a.S + " " + b.S + ")", Sort: SStr}
+	if a.Const {
+		t.Head, t.Tail = a, b
+	} else if a.Head != nil {
+		t.Head, t.Tail = a.Head, StrConcat(a.Tail, b)
+	}
+	return t
 }
 
 func intOf(t *Term) string {
@@ -472,12 +483,19 @@ func StrByte(s, idx *Term) *Term {
 	if s.Const && idx.Const && idx.U < uint64(len(s.Str)) {
 		return BV(8, uint64(s.Str[idx.U]))
 	}
+	if s.Head != nil && idx.Const && idx.U < uint64(len(s.Head.Str)) {
+		return BV(8, uint64(s.Head.Str[idx.U]))
+	}
 	return fromInt(8, "(str.to_code (str.at "+s.S+" "+intOf(idx)+"))")
 }
 
 func StrSub(s, lo, hi *Term) *Term {
 	if s.Const && lo.Const && hi.Const && lo.U <= hi.U && hi.U <= uint64(len(s.Str)) {
 		return Str(s.Str[lo.U:hi.U])
+	}
+	// s = Head ++ Tail, slice [len(Head) : len(s)] == Tail
+	if s.Head != nil && lo.Const && lo.U == uint64(len(s.Head.Str)) && hi.S == StrLen(s).S {
+		return s.Tail
 	}
 	n := "(- " + intOf(hi) + " " + intOf(lo) + ")"
 	return &Term{S: "(str.substr " + s.S + " " + intOf(lo) + " " + n + ")", Sort: SStr}
